@@ -1,7 +1,7 @@
 # Per-property job tables for ./check. Each job is one `go test` binary
 # invocation (optionally sharded). See DESIGN.md §2.
 NOT_APPLICABLE = {}
-HOOK_COMMITS = []
+HOOK_COMMITS = ["3aa21f2"]
 
 T = lambda q, t: {"quick": q, "thorough": t}
 
@@ -49,4 +49,40 @@ PROPS = {
                   "text": "Generated-input search: derivation chains and trees (With/Hook/Level/Output/Sample/UpdateContext, Context.Timestamp/Caller) with hook lists and all finalizers; the emitted key sequence must equal the reference model's (level, context, event, hook fields, message) and the hook invocation log (id, level, message) must equal the model's. Held on everything explored.",
                   "note": "Trusts the harness's tree model (validated against 10^5 programs on the unchanged tree) and jsonref. Values other than level/message are C02's concern and are not compared here; unparseable lines are left to C01."},
     },
+    "C08": {
+        "aux_builds": {"lpexec": {"pkg": "./tools/lpexec", "tags": "verif", "env": "VERIF_LPEXEC"}},
+        "jobs": [
+            {"name": "rapid", "pkg": "./c08", "tags": "binary_log verif", "run": "^TestRapidPrograms$", "rapid": T(4000, 15000), "shards": T(2, 8), "replay": "^TestReplay$"},
+            {"name": "trees", "pkg": "./c08", "tags": "binary_log verif", "run": "^TestRapidTrees$", "rapid": T(3000, 15000), "shards": T(2, 8)},
+            {"name": "regress", "pkg": "./c08", "tags": "binary_log verif", "run": "^TestRegress$"},
+        ],
+        "assumptions": LP_ASSUME + ["both builds are compiled from /repo's current working tree; the JSON build runs as a co-process (harness/tools/lpexec)",
+                                    "generator restricted to the classes the statement names (precision -1, 4/16-byte IPs, 6-byte MACs, minute-resolution zones, sub-second instants within +-2^32 s)"],
+        "claim": {"ref": "DESIGN.md §5 C08", "technique": "differential property-based testing (rapid): the same generated logging program runs under both build tags; decoded CBOR is compared value-wise with the JSON build's line",
+                  "text": "Generated-input search with a differential oracle: each generated program is executed in the binary_log build (CBOR -> bundled decoder -> JSON text, which must itself be one valid JSON line) and in a co-process built from the same tree without the tag; keys must agree in order and values must be equal as decoded values (integers exactly, floats to the same float, text after unescaping, timestamps within 1 microsecond). Held on everything explored.",
+                  "note": "Trusts the harness comparator (time-equivalence is tried only where the two sides differ textually), jsonref, the Go time package."},
+    },
+    "C09": {
+        "jobs": [
+            {"name": "rapid", "pkg": "./c09", "tags": "binary_log verif", "run": "^TestRapidPrograms$", "rapid": T(6000, 20000), "shards": T(1, 8), "replay": "^TestReplay$"},
+            {"name": "trees", "pkg": "./c09", "tags": "binary_log verif", "run": "^TestRapidTrees$", "rapid": T(4000, 20000), "shards": T(1, 8)},
+            {"name": "boundaries", "pkg": "./c09", "tags": "binary_log verif", "run": "^(TestBoundaries|TestRegress)$"},
+        ],
+        "assumptions": LP_ASSUME + ["NaN payloads are not required to survive (zerolog writes the canonical NaN); nil may be CBOR null or embedded JSON null"],
+        "claim": {"ref": "DESIGN.md §5 C09", "technique": "property-based testing (rapid) + boundary-exhaustive grid under -tags binary_log; oracle: independent RFC 8949 parser + expected-value model in zerolog's CBOR representation",
+                  "text": "Generated-input search: every Write of every generated program under binary_log must parse, with an independent RFC 8949 parser, as exactly one indefinite-length map with text keys, an even item count, matching nested lengths, no reserved additional information and no trailing bytes; the value tree must equal the expected-value model (exact integers, bit-exact floats, tags 1/260/261/262/263/63). A boundary grid covers both sides of every 23/24, 255/256, 65535/65536 length/count and every integer width boundary. Held on everything explored.",
+                  "note": "Trusts harness cborref parser (written for this purpose, shares no code with internal/cbor) and the expected-value model."},
+    },
+}
+
+PROPS["C05"] = {
+    "jobs": [
+        {"name": "trees", "pkg": "./c05", "run": "^TestRapidTrees$", "rapid": T(20000, 40000), "shards": T(2, 16), "replay": "^TestReplay$"},
+        {"name": "regress", "pkg": "./c05", "run": "^TestRegress$"},
+    ],
+    "assumptions": LP_ASSUME + ["UpdateContext only on a logger just produced by With() and not yet derived from (documented caution)",
+                                "branching happens at Logger values; two loggers derived from one intermediate Context value are probed separately (KF-C05-1)"],
+    "claim": {"ref": "DESIGN.md §5 C05", "technique": "property-based testing (rapid) over derivation trees with interleaved derivations/events/open events; oracle: logger-tree reference model per destination incl. Go context seen through GetCtx",
+              "text": "Generated-input search: trees of derived loggers are built and used in generated orders (derivations interleaved with events through any node, several events open at once); every event must carry exactly the context fields, hook fields, level gate, sampler decisions, stack flag and Go context of its own derivation path, per destination. Held on everything explored.",
+              "note": "Sequential histories are deterministic (pool state is scrubbed before each program). Concurrent use of different nodes is exercised by the race-mode job only on schedules the Go runtime produces."},
 }
